@@ -46,6 +46,71 @@ def nlines(lines):
     return [l + "\n" for l in lines]
 
 
+FIXED_EXTS = ["f", "for", "F", "FOR"]     # the default fixed_extensions of the settings
+
+
+def small_program(rng):
+    """one small program unit in fixed form and its free-form equivalent (same statements, same docs)"""
+    nm = rng.choice(["work", "Solve", "AREA", "step2"])
+    arg = rng.choice(["x", "val", "N"])
+    loc = rng.choice(["tmp", "acc", "K"])
+    mark = rng.choice("&1+$*x")
+    cm = rng.choice(["C", "c", "*", "!"])
+    docs = rng.random() < 0.7
+    fixed = [f"{cm} a {nm} routine", f"      subroutine {nm}({arg},"]
+    free = [f"! a {nm} routine", f"subroutine {nm}({arg}, &"]
+    fixed += [f"     {mark}   other)"]
+    free += ["   other)"]
+    if docs:
+        fixed += [f"      !! does the {nm} work"]
+        free += [f"  !! does the {nm} work"]
+    fixed += [f"      integer {arg}", "      real other !! second argument" if docs else "      real other",
+              f"      real {loc}(3)", f"      {loc}(1) = other +", f"     {mark}    1.0", "   10 continue",
+              f"      call helper({loc}(1))", "      end"]
+    free += [f"  integer {arg}", "  real other !! second argument" if docs else "  real other",
+             f"  real {loc}(3)", f"  {loc}(1) = other + &", "    1.0", "10 continue",
+             f"  call helper({loc}(1))", "end"]
+    return "\n".join(fixed) + "\n", "\n".join(free) + "\n"
+
+
+def project_level(chk, rng, quick):
+    """E. through Project: a fixed-form file under every default fixed-form extension documents the same
+    entities (names, arguments, variables, documentation, calls) as its free-form equivalent"""
+    from harness.impl import fordrun as F
+    from harness.impl import tree as I
+    from harness.gen import ftree as T
+
+    def snapshot(fname, text):
+        with F.Work({f"src/{fname}": text}) as w:
+            try:
+                p = F.parse_project(w.root, correlate=True)
+            except BaseException as e:  # noqa
+                if isinstance(e, (KeyboardInterrupt, SystemExit)):
+                    raise
+                return ("EXC", type(e).__name__, str(e)[:200])
+            if not p.files:
+                return ("rejected", p._verif_log[-300:])
+            node = I.file_node(p.files[0])
+            node = dict(node, name="FILE")
+            calls = sorted(str(getattr(c, "name", c)).lower() for u in list(p.files[0].subroutines) + list(p.files[0].functions)
+                           for c in getattr(u, "calls", []))
+            return ("ok", T.tree_term(node), calls)
+    for k in range(6 if quick else 60):
+        fixed, free = small_program(rng)
+        ref = snapshot("unit.f90", free)
+        for ext in FIXED_EXTS:
+            got = snapshot(f"unit.{ext}", fixed)
+            chk.count(("project-level", ext, fixed), sample={"ext": ext, "fixed": fixed} if k == 0 and ext == "F" else None)
+            if ref[0] != "ok":
+                chk.violation("failing-input", {"what": "FORD does not document the free-form reference program",
+                                                "free": free, "result": ref}, True)
+                break
+            if got != ref:
+                chk.violation("failing-input", {"what": f"a fixed-form file with extension .{ext} is not documented "
+                                                "like its free-form equivalent", "fixed": fixed, "free": free,
+                                                "fixed_result": got[:2], "free_result": ref[:2]}, True)
+
+
 def run(chk):
     chk.build(["theories/Corr/C14.vo", "theories/Props/C14.vo"])
     chk.props("theories/Props/C14.v", THEOREMS)
@@ -126,6 +191,7 @@ def run(chk):
                                                         "impl": out, "region": region}, True)
         chk.extra["known_region_cases"] = hits
         chk.extra["layout_shapes"] = dict(sorted(shape_counts.items()))
+        project_level(chk, rng, quick)
         # the known finding still present?  (by the standard the literal is ab, 59 blanks up to column 72, cd)
         r = run_reader(["      s = 'ab", "     &cd'"], fixed=True, workdir=work)
         chk.known("literal-continued-across-lines", r != ("ok", ["s = 'ab" + " " * 59 + "cd'"]))
